@@ -1,152 +1,264 @@
 (* C08 -- the CPU backends compute the same function: the theorems for the ELEMENTWISE kernels.
    Nothing but statements closed by `exact <lemma>` and Print Assumptions.
 
-   efw_<k> / ebw_<k> (Gen/ScalarGenEigen.v) are the pointwise meaning of the Eigen backend's
-   array expressions, fw_<k> / bw_<k> (Gen/ScalarGen.v) the Naive backend's per-element
-   expressions; both files are regenerated from /repo as it is NOW on every `./check C08`
-   (translate/gen_scalar_eigen.py, translate/gen_scalar.py).  Each theorem: for ALL real arguments
-   the two backends' formulas give the same real number.  No domain hypothesis is stated because
-   none is needed: at the partial operations (/, ln, sqrt, Rpower = pow) both backends apply the
-   same operation to the same arguments (see the header of Backend/EigenElem.v for how to read
-   the equality there); at the kinks of prelu / elu / abs the two formulas agree as well
-   (C08_elem_kinks_agree), so there is no `_differs_at` statement.
-   Over R only: float32 rounding, the accuracy of Eigen's packet math and the ends of the float
-   range (known finding D34) are decided by the pair grid of engines/c08.py, not here. *)
+   HEADLINE: C08_elem_<family>_same, stated over an ARBITRARY interpretation o : ops
+   (Backend/AbsOps.v) of the partial / library operations `/`, pow, exp, log, sqrt, tanh, sin, cos,
+   tan.  aefw_<k> / aebw_<k> (Gen/ScalarGenEigenAbs.v) are the Eigen backend's array expressions,
+   afw_<k> / abw_<k> (Gen/ScalarGenAbs.v) the Naive backend's per-element expressions, both
+   regenerated from /repo as it is NOW on every `./check C08`.  Each theorem: for every o and all
+   real arguments the two backends' formulas are equal -- i.e. they make the same calls of those
+   operations on the same arguments, up to ring identities of + - * and case splits on real
+   comparisons (kept interpreted: exact real arithmetic in both readings).  They cannot hold by
+   the way Coq completes a partial function (Rpower a b = exp (b * ln a), x / 0, ln of a
+   non-positive number ...).  The two properties of library operations that are needed are
+   explicit hypotheses: op_exp o 0 = 1 (forward elu) and op_div o (p*r) q = op_div o p q * r
+   (gradient gb of divide: Naive computes -(gy/b)*y, Eigen -(gy*y)/b).  No domain hypothesis and
+   no `_differs_at` statement: there is no point where the formulas differ
+   (C08_elem_kinks_agree for x = 0 of prelu / elu / abs).
+
+   COROLLARIES: C08_elem_forward_same_R / C08_elem_backward_same_R, the same equalities between the concrete definitions
+   efw_<k> / fw_<k> (Gen/ScalarGenEigen.v, Gen/ScalarGen.v) over Coq's real functions, obtained by
+   o := Rops; C08_elem_abstract_instantiates: the abstract trees at Rops ARE the concrete
+   definitions (reflexivity).
+
+   Over R only: float32 rounding, the accuracy of Eigen's packet math, NaN inputs and the ends of
+   the float range (known finding D34) are decided by the pair grid of engines/c08.py, not here. *)
 From Coq Require Import Reals ZArith List String.
-From PV Require Import Scalar.ScalarBase Gen.ScalarGen Backend.EigenBase Gen.ScalarGenEigen Backend.EigenElem.
+From PV Require Import Scalar.ScalarBase Backend.EigenBase Backend.AbsOps.
+From PV Require Import Gen.ScalarGen Gen.ScalarGenEigen Gen.ScalarGenAbs Gen.ScalarGenEigenAbs Backend.EigenElem.
 Import ListNotations.
 Local Open Scope R_scope.
 
 (* unary functions, forward (EIGEN_DEV_FW_X / CPUDEV_FW_X) *)
-Theorem C08_elem_unary_fw_same (x : R) :
-  efw_abs x = fw_abs x /\
-  efw_cos x = fw_cos x /\
-  efw_exp x = fw_exp x /\
-  efw_log x = fw_log x /\
-  efw_negate x = fw_negate x /\
-  efw_sigmoid x = fw_sigmoid x /\
-  efw_sin x = fw_sin x /\
-  efw_softplus x = fw_softplus x /\
-  efw_sqrt x = fw_sqrt x /\
-  efw_tan x = fw_tan x /\
-  efw_tanh x = fw_tanh x.
+Theorem C08_elem_unary_fw_same (o : ops) (x : R) :
+  aefw_abs o x = afw_abs o x /\
+  aefw_cos o x = afw_cos o x /\
+  aefw_exp o x = afw_exp o x /\
+  aefw_log o x = afw_log o x /\
+  aefw_negate o x = afw_negate o x /\
+  aefw_sigmoid o x = afw_sigmoid o x /\
+  aefw_sin o x = afw_sin o x /\
+  aefw_softplus o x = afw_softplus o x /\
+  aefw_sqrt o x = afw_sqrt o x /\
+  aefw_tan o x = afw_tan o x /\
+  aefw_tanh o x = afw_tanh o x.
 Proof.
-  exact (conj (abs_fw_same x) (conj (cos_fw_same x) (conj (exp_fw_same x) (conj (log_fw_same x) (conj (negate_fw_same x) (conj (sigmoid_fw_same x) (conj (sin_fw_same x) (conj (softplus_fw_same x) (conj (sqrt_fw_same x) (conj (tan_fw_same x) (tanh_fw_same x))))))))))).
+  exact (conj (abs_fw_same_abs o x) (conj (cos_fw_same_abs o x) (conj (exp_fw_same_abs o x) (conj (log_fw_same_abs o x) (conj (negate_fw_same_abs o x) (conj (sigmoid_fw_same_abs o x) (conj (sin_fw_same_abs o x) (conj (softplus_fw_same_abs o x) (conj (sqrt_fw_same_abs o x) (conj (tan_fw_same_abs o x) (tanh_fw_same_abs o x))))))))))).
 Qed.
 Print Assumptions C08_elem_unary_fw_same.
 
 (* unary functions, backward: increment of gx *)
-Theorem C08_elem_unary_bw_same (x : R) (y : R) (gy : R) :
-  ebw_abs x y gy = bw_abs x y gy /\
-  ebw_cos x y gy = bw_cos x y gy /\
-  ebw_exp x y gy = bw_exp x y gy /\
-  ebw_log x y gy = bw_log x y gy /\
-  ebw_sigmoid x y gy = bw_sigmoid x y gy /\
-  ebw_sin x y gy = bw_sin x y gy /\
-  ebw_softplus x y gy = bw_softplus x y gy /\
-  ebw_sqrt x y gy = bw_sqrt x y gy /\
-  ebw_tan x y gy = bw_tan x y gy /\
-  ebw_tanh x y gy = bw_tanh x y gy.
+Theorem C08_elem_unary_bw_same (o : ops) (x : R) (y : R) (gy : R) :
+  aebw_abs o x y gy = abw_abs o x y gy /\
+  aebw_cos o x y gy = abw_cos o x y gy /\
+  aebw_exp o x y gy = abw_exp o x y gy /\
+  aebw_log o x y gy = abw_log o x y gy /\
+  aebw_sigmoid o x y gy = abw_sigmoid o x y gy /\
+  aebw_sin o x y gy = abw_sin o x y gy /\
+  aebw_softplus o x y gy = abw_softplus o x y gy /\
+  aebw_sqrt o x y gy = abw_sqrt o x y gy /\
+  aebw_tan o x y gy = abw_tan o x y gy /\
+  aebw_tanh o x y gy = abw_tanh o x y gy.
 Proof.
-  exact (conj (abs_bw_same x y gy) (conj (cos_bw_same x y gy) (conj (exp_bw_same x y gy) (conj (log_bw_same x y gy) (conj (sigmoid_bw_same x y gy) (conj (sin_bw_same x y gy) (conj (softplus_bw_same x y gy) (conj (sqrt_bw_same x y gy) (conj (tan_bw_same x y gy) (tanh_bw_same x y gy)))))))))).
+  exact (conj (abs_bw_same_abs o x y gy) (conj (cos_bw_same_abs o x y gy) (conj (exp_bw_same_abs o x y gy) (conj (log_bw_same_abs o x y gy) (conj (sigmoid_bw_same_abs o x y gy) (conj (sin_bw_same_abs o x y gy) (conj (softplus_bw_same_abs o x y gy) (conj (sqrt_bw_same_abs o x y gy) (conj (tan_bw_same_abs o x y gy) (tanh_bw_same_abs o x y gy)))))))))).
 Qed.
 Print Assumptions C08_elem_unary_bw_same.
 
 (* tensor (op) float constant k, prelu, elu: forward *)
-Theorem C08_elem_const_fw_same (x : R) (k : R) :
-  efw_add_const x k = fw_add_const x k /\
-  efw_divide_const_r x k = fw_divide_const_r x k /\
-  efw_divide_const_l x k = fw_divide_const_l x k /\
-  efw_elu x k = fw_elu x k /\
-  efw_multiply_const x k = fw_multiply_const x k /\
-  efw_pow_const_r x k = fw_pow_const_r x k /\
-  efw_pow_const_l x k = fw_pow_const_l x k /\
-  efw_prelu x k = fw_prelu x k /\
-  efw_subtract_const_r x k = fw_subtract_const_r x k /\
-  efw_subtract_const_l x k = fw_subtract_const_l x k.
+Theorem C08_elem_const_fw_same (o : ops) (Hexp0 : op_exp o 0 = 1) (x : R) (k : R) :
+  aefw_add_const o x k = afw_add_const o x k /\
+  aefw_divide_const_r o x k = afw_divide_const_r o x k /\
+  aefw_divide_const_l o x k = afw_divide_const_l o x k /\
+  aefw_elu o x k = afw_elu o x k /\
+  aefw_multiply_const o x k = afw_multiply_const o x k /\
+  aefw_pow_const_r o x k = afw_pow_const_r o x k /\
+  aefw_pow_const_l o x k = afw_pow_const_l o x k /\
+  aefw_prelu o x k = afw_prelu o x k /\
+  aefw_subtract_const_r o x k = afw_subtract_const_r o x k /\
+  aefw_subtract_const_l o x k = afw_subtract_const_l o x k.
 Proof.
-  exact (conj (add_const_fw_same x k) (conj (divide_const_r_fw_same x k) (conj (divide_const_l_fw_same x k) (conj (elu_fw_same x k) (conj (multiply_const_fw_same x k) (conj (pow_const_r_fw_same x k) (conj (pow_const_l_fw_same x k) (conj (prelu_fw_same x k) (conj (subtract_const_r_fw_same x k) (subtract_const_l_fw_same x k)))))))))).
+  exact (conj (add_const_fw_same_abs o x k) (conj (divide_const_r_fw_same_abs o x k) (conj (divide_const_l_fw_same_abs o x k) (conj (elu_fw_same_abs o Hexp0 x k) (conj (multiply_const_fw_same_abs o x k) (conj (pow_const_r_fw_same_abs o x k) (conj (pow_const_l_fw_same_abs o x k) (conj (prelu_fw_same_abs o x k) (conj (subtract_const_r_fw_same_abs o x k) (subtract_const_l_fw_same_abs o x k)))))))))).
 Qed.
 Print Assumptions C08_elem_const_fw_same.
 
 (* tensor (op) float constant k, prelu, elu: backward *)
-Theorem C08_elem_const_bw_same (x : R) (y : R) (gy : R) (k : R) :
-  ebw_add_const x y gy k = bw_add_const x y gy k /\
-  ebw_divide_const_r x y gy k = bw_divide_const_r x y gy k /\
-  ebw_divide_const_l x y gy k = bw_divide_const_l x y gy k /\
-  ebw_elu x y gy k = bw_elu x y gy k /\
-  ebw_multiply_const x y gy k = bw_multiply_const x y gy k /\
-  ebw_pow_const_r x y gy k = bw_pow_const_r x y gy k /\
-  ebw_pow_const_l x y gy k = bw_pow_const_l x y gy k /\
-  ebw_prelu x y gy k = bw_prelu x y gy k /\
-  ebw_subtract_const_r x y gy k = bw_subtract_const_r x y gy k /\
-  ebw_subtract_const_l x y gy k = bw_subtract_const_l x y gy k.
+Theorem C08_elem_const_bw_same (o : ops) (x : R) (y : R) (gy : R) (k : R) :
+  aebw_add_const o x y gy k = abw_add_const o x y gy k /\
+  aebw_divide_const_r o x y gy k = abw_divide_const_r o x y gy k /\
+  aebw_divide_const_l o x y gy k = abw_divide_const_l o x y gy k /\
+  aebw_elu o x y gy k = abw_elu o x y gy k /\
+  aebw_multiply_const o x y gy k = abw_multiply_const o x y gy k /\
+  aebw_pow_const_r o x y gy k = abw_pow_const_r o x y gy k /\
+  aebw_pow_const_l o x y gy k = abw_pow_const_l o x y gy k /\
+  aebw_prelu o x y gy k = abw_prelu o x y gy k /\
+  aebw_subtract_const_r o x y gy k = abw_subtract_const_r o x y gy k /\
+  aebw_subtract_const_l o x y gy k = abw_subtract_const_l o x y gy k.
 Proof.
-  exact (conj (add_const_bw_same x y gy k) (conj (divide_const_r_bw_same x y gy k) (conj (divide_const_l_bw_same x y gy k) (conj (elu_bw_same x y gy k) (conj (multiply_const_bw_same x y gy k) (conj (pow_const_r_bw_same x y gy k) (conj (pow_const_l_bw_same x y gy k) (conj (prelu_bw_same x y gy k) (conj (subtract_const_r_bw_same x y gy k) (subtract_const_l_bw_same x y gy k)))))))))).
+  exact (conj (add_const_bw_same_abs o x y gy k) (conj (divide_const_r_bw_same_abs o x y gy k) (conj (divide_const_l_bw_same_abs o x y gy k) (conj (elu_bw_same_abs o x y gy k) (conj (multiply_const_bw_same_abs o x y gy k) (conj (pow_const_r_bw_same_abs o x y gy k) (conj (pow_const_l_bw_same_abs o x y gy k) (conj (prelu_bw_same_abs o x y gy k) (conj (subtract_const_r_bw_same_abs o x y gy k) (subtract_const_l_bw_same_abs o x y gy k)))))))))).
 Qed.
 Print Assumptions C08_elem_const_bw_same.
 
 (* tensor (op) one-element tensor k (per batch item): forward *)
-Theorem C08_elem_scalar_fw_same (x : R) (k : R) :
-  efw_add_scalar x k = fw_add_scalar x k /\
-  efw_divide_scalar_r x k = fw_divide_scalar_r x k /\
-  efw_divide_scalar_l x k = fw_divide_scalar_l x k /\
-  efw_multiply_scalar x k = fw_multiply_scalar x k /\
-  efw_pow_scalar_r x k = fw_pow_scalar_r x k /\
-  efw_pow_scalar_l x k = fw_pow_scalar_l x k /\
-  efw_subtract_scalar_r x k = fw_subtract_scalar_r x k /\
-  efw_subtract_scalar_l x k = fw_subtract_scalar_l x k.
+Theorem C08_elem_scalar_fw_same (o : ops) (x : R) (k : R) :
+  aefw_add_scalar o x k = afw_add_scalar o x k /\
+  aefw_divide_scalar_r o x k = afw_divide_scalar_r o x k /\
+  aefw_divide_scalar_l o x k = afw_divide_scalar_l o x k /\
+  aefw_multiply_scalar o x k = afw_multiply_scalar o x k /\
+  aefw_pow_scalar_r o x k = afw_pow_scalar_r o x k /\
+  aefw_pow_scalar_l o x k = afw_pow_scalar_l o x k /\
+  aefw_subtract_scalar_r o x k = afw_subtract_scalar_r o x k /\
+  aefw_subtract_scalar_l o x k = afw_subtract_scalar_l o x k.
 Proof.
-  exact (conj (add_scalar_fw_same x k) (conj (divide_scalar_r_fw_same x k) (conj (divide_scalar_l_fw_same x k) (conj (multiply_scalar_fw_same x k) (conj (pow_scalar_r_fw_same x k) (conj (pow_scalar_l_fw_same x k) (conj (subtract_scalar_r_fw_same x k) (subtract_scalar_l_fw_same x k)))))))).
+  exact (conj (add_scalar_fw_same_abs o x k) (conj (divide_scalar_r_fw_same_abs o x k) (conj (divide_scalar_l_fw_same_abs o x k) (conj (multiply_scalar_fw_same_abs o x k) (conj (pow_scalar_r_fw_same_abs o x k) (conj (pow_scalar_l_fw_same_abs o x k) (conj (subtract_scalar_r_fw_same_abs o x k) (subtract_scalar_l_fw_same_abs o x k)))))))).
 Qed.
 Print Assumptions C08_elem_scalar_fw_same.
 
 (* tensor (op) tensor: forward *)
-Theorem C08_elem_binary_fw_same (a : R) (b : R) :
-  efw_add a b = fw_add a b /\
-  efw_divide a b = fw_divide a b /\
-  efw_multiply a b = fw_multiply a b /\
-  efw_pow a b = fw_pow a b /\
-  efw_subtract a b = fw_subtract a b.
+Theorem C08_elem_binary_fw_same (o : ops) (a : R) (b : R) :
+  aefw_add o a b = afw_add o a b /\
+  aefw_divide o a b = afw_divide o a b /\
+  aefw_multiply o a b = afw_multiply o a b /\
+  aefw_pow o a b = afw_pow o a b /\
+  aefw_subtract o a b = afw_subtract o a b.
 Proof.
-  exact (conj (add_fw_same a b) (conj (divide_fw_same a b) (conj (multiply_fw_same a b) (conj (pow_fw_same a b) (subtract_fw_same a b))))).
+  exact (conj (add_fw_same_abs o a b) (conj (divide_fw_same_abs o a b) (conj (multiply_fw_same_abs o a b) (conj (pow_fw_same_abs o a b) (subtract_fw_same_abs o a b))))).
 Qed.
 Print Assumptions C08_elem_binary_fw_same.
 
 (* tensor (op) tensor: backward, increments of ga (_a) and gb (_b) *)
-Theorem C08_elem_binary_bw_same (a : R) (b : R) (y : R) (gy : R) :
-  ebw_add_a a b y gy = bw_add_a a b y gy /\
-  ebw_add_b a b y gy = bw_add_b a b y gy /\
-  ebw_divide_a a b y gy = bw_divide_a a b y gy /\
-  ebw_divide_b a b y gy = bw_divide_b a b y gy /\
-  ebw_multiply_a a b y gy = bw_multiply_a a b y gy /\
-  ebw_multiply_b a b y gy = bw_multiply_b a b y gy /\
-  ebw_pow_a a b y gy = bw_pow_a a b y gy /\
-  ebw_pow_b a b y gy = bw_pow_b a b y gy /\
-  ebw_subtract_a a b y gy = bw_subtract_a a b y gy /\
-  ebw_subtract_b a b y gy = bw_subtract_b a b y gy.
+Theorem C08_elem_binary_bw_same (o : ops) (Hdiv : forall p q r, op_div o (p * r) q = op_div o p q * r) (a : R) (b : R) (y : R) (gy : R) :
+  aebw_add_a o a b y gy = abw_add_a o a b y gy /\
+  aebw_add_b o a b y gy = abw_add_b o a b y gy /\
+  aebw_divide_a o a b y gy = abw_divide_a o a b y gy /\
+  aebw_divide_b o a b y gy = abw_divide_b o a b y gy /\
+  aebw_multiply_a o a b y gy = abw_multiply_a o a b y gy /\
+  aebw_multiply_b o a b y gy = abw_multiply_b o a b y gy /\
+  aebw_pow_a o a b y gy = abw_pow_a o a b y gy /\
+  aebw_pow_b o a b y gy = abw_pow_b o a b y gy /\
+  aebw_subtract_a o a b y gy = abw_subtract_a o a b y gy /\
+  aebw_subtract_b o a b y gy = abw_subtract_b o a b y gy.
 Proof.
-  exact (conj (add_a_bw_same a b y gy) (conj (add_b_bw_same a b y gy) (conj (divide_a_bw_same a b y gy) (conj (divide_b_bw_same a b y gy) (conj (multiply_a_bw_same a b y gy) (conj (multiply_b_bw_same a b y gy) (conj (pow_a_bw_same a b y gy) (conj (pow_b_bw_same a b y gy) (conj (subtract_a_bw_same a b y gy) (subtract_b_bw_same a b y gy)))))))))).
+  exact (conj (add_a_bw_same_abs o a b y gy) (conj (add_b_bw_same_abs o a b y gy) (conj (divide_a_bw_same_abs o a b y gy) (conj (divide_b_bw_same_abs o Hdiv a b y gy) (conj (multiply_a_bw_same_abs o a b y gy) (conj (multiply_b_bw_same_abs o a b y gy) (conj (pow_a_bw_same_abs o a b y gy) (conj (pow_b_bw_same_abs o a b y gy) (conj (subtract_a_bw_same_abs o a b y gy) (subtract_b_bw_same_abs o a b y gy)))))))))).
 Qed.
 Print Assumptions C08_elem_binary_bw_same.
 
 (* integer power by repeated squaring (k : int32) and its gradient *)
-Theorem C08_elem_pown_same (x : R) (y : R) (gy : R) (k : Z) :
-  efw_pown x k = fw_pown x k /\
-  ebw_pown x y gy k = bw_pown x y gy k.
+Theorem C08_elem_pown_same (o : ops) (x : R) (y : R) (gy : R) (k : Z) :
+  aefw_pown o x k = afw_pown o x k /\
+  aebw_pown o x y gy k = abw_pown o x y gy k.
 Proof.
-  exact (conj (pown_fw_same x k) (pown_bw_same x y gy k)).
+  exact (conj (pown_fw_same_abs o x k) (pown_bw_same_abs o x y gy k)).
 Qed.
 Print Assumptions C08_elem_pown_same.
 
-(* every row of the table (Naive name, statement) holds; the rows are the 66 equalities above, one per row, each closed over its own arguments *)
+(* ---- corollaries over Coq's real functions (o := Rops; proofs in Backend/EigenElem.v: `destruct (inst_<k> ..) as [<- <-]; exact (<k>_same_abs Rops ..)`) ---- *)
+
+Theorem C08_elem_forward_same_R (x k a b : R) (n : Z) :
+  (* unary_fw *)
+  (efw_abs x = fw_abs x /\
+   efw_cos x = fw_cos x /\
+   efw_exp x = fw_exp x /\
+   efw_log x = fw_log x /\
+   efw_negate x = fw_negate x /\
+   efw_sigmoid x = fw_sigmoid x /\
+   efw_sin x = fw_sin x /\
+   efw_softplus x = fw_softplus x /\
+   efw_sqrt x = fw_sqrt x /\
+   efw_tan x = fw_tan x /\
+   efw_tanh x = fw_tanh x) /\
+  (* const_fw *)
+  (efw_add_const x k = fw_add_const x k /\
+   efw_divide_const_r x k = fw_divide_const_r x k /\
+   efw_divide_const_l x k = fw_divide_const_l x k /\
+   efw_elu x k = fw_elu x k /\
+   efw_multiply_const x k = fw_multiply_const x k /\
+   efw_pow_const_r x k = fw_pow_const_r x k /\
+   efw_pow_const_l x k = fw_pow_const_l x k /\
+   efw_prelu x k = fw_prelu x k /\
+   efw_subtract_const_r x k = fw_subtract_const_r x k /\
+   efw_subtract_const_l x k = fw_subtract_const_l x k) /\
+  (* scalar_fw *)
+  (efw_add_scalar x k = fw_add_scalar x k /\
+   efw_divide_scalar_r x k = fw_divide_scalar_r x k /\
+   efw_divide_scalar_l x k = fw_divide_scalar_l x k /\
+   efw_multiply_scalar x k = fw_multiply_scalar x k /\
+   efw_pow_scalar_r x k = fw_pow_scalar_r x k /\
+   efw_pow_scalar_l x k = fw_pow_scalar_l x k /\
+   efw_subtract_scalar_r x k = fw_subtract_scalar_r x k /\
+   efw_subtract_scalar_l x k = fw_subtract_scalar_l x k) /\
+  (* binary_fw *)
+  (efw_add a b = fw_add a b /\
+   efw_divide a b = fw_divide a b /\
+   efw_multiply a b = fw_multiply a b /\
+   efw_pow a b = fw_pow a b /\
+   efw_subtract a b = fw_subtract a b) /\
+  (* pown *)
+  (efw_pown x n = fw_pown x n).
+Proof.
+  exact (conj (conj (abs_fw_same x) (conj (cos_fw_same x) (conj (exp_fw_same x) (conj (log_fw_same x) (conj (negate_fw_same x) (conj (sigmoid_fw_same x) (conj (sin_fw_same x) (conj (softplus_fw_same x) (conj (sqrt_fw_same x) (conj (tan_fw_same x) (tanh_fw_same x))))))))))) (conj (conj (add_const_fw_same x k) (conj (divide_const_r_fw_same x k) (conj (divide_const_l_fw_same x k) (conj (elu_fw_same x k) (conj (multiply_const_fw_same x k) (conj (pow_const_r_fw_same x k) (conj (pow_const_l_fw_same x k) (conj (prelu_fw_same x k) (conj (subtract_const_r_fw_same x k) (subtract_const_l_fw_same x k)))))))))) (conj (conj (add_scalar_fw_same x k) (conj (divide_scalar_r_fw_same x k) (conj (divide_scalar_l_fw_same x k) (conj (multiply_scalar_fw_same x k) (conj (pow_scalar_r_fw_same x k) (conj (pow_scalar_l_fw_same x k) (conj (subtract_scalar_r_fw_same x k) (subtract_scalar_l_fw_same x k)))))))) (conj (conj (add_fw_same a b) (conj (divide_fw_same a b) (conj (multiply_fw_same a b) (conj (pow_fw_same a b) (subtract_fw_same a b))))) (pown_fw_same x n))))).
+Qed.
+Print Assumptions C08_elem_forward_same_R.
+
+Theorem C08_elem_backward_same_R (x y gy k a b : R) (n : Z) :
+  (* unary_bw *)
+  (ebw_abs x y gy = bw_abs x y gy /\
+   ebw_cos x y gy = bw_cos x y gy /\
+   ebw_exp x y gy = bw_exp x y gy /\
+   ebw_log x y gy = bw_log x y gy /\
+   ebw_sigmoid x y gy = bw_sigmoid x y gy /\
+   ebw_sin x y gy = bw_sin x y gy /\
+   ebw_softplus x y gy = bw_softplus x y gy /\
+   ebw_sqrt x y gy = bw_sqrt x y gy /\
+   ebw_tan x y gy = bw_tan x y gy /\
+   ebw_tanh x y gy = bw_tanh x y gy) /\
+  (* const_bw *)
+  (ebw_add_const x y gy k = bw_add_const x y gy k /\
+   ebw_divide_const_r x y gy k = bw_divide_const_r x y gy k /\
+   ebw_divide_const_l x y gy k = bw_divide_const_l x y gy k /\
+   ebw_elu x y gy k = bw_elu x y gy k /\
+   ebw_multiply_const x y gy k = bw_multiply_const x y gy k /\
+   ebw_pow_const_r x y gy k = bw_pow_const_r x y gy k /\
+   ebw_pow_const_l x y gy k = bw_pow_const_l x y gy k /\
+   ebw_prelu x y gy k = bw_prelu x y gy k /\
+   ebw_subtract_const_r x y gy k = bw_subtract_const_r x y gy k /\
+   ebw_subtract_const_l x y gy k = bw_subtract_const_l x y gy k) /\
+  (* binary_bw *)
+  (ebw_add_a a b y gy = bw_add_a a b y gy /\
+   ebw_add_b a b y gy = bw_add_b a b y gy /\
+   ebw_divide_a a b y gy = bw_divide_a a b y gy /\
+   ebw_divide_b a b y gy = bw_divide_b a b y gy /\
+   ebw_multiply_a a b y gy = bw_multiply_a a b y gy /\
+   ebw_multiply_b a b y gy = bw_multiply_b a b y gy /\
+   ebw_pow_a a b y gy = bw_pow_a a b y gy /\
+   ebw_pow_b a b y gy = bw_pow_b a b y gy /\
+   ebw_subtract_a a b y gy = bw_subtract_a a b y gy /\
+   ebw_subtract_b a b y gy = bw_subtract_b a b y gy) /\
+  (* pown *)
+  (ebw_pown x y gy n = bw_pown x y gy n).
+Proof.
+  exact (conj (conj (abs_bw_same x y gy) (conj (cos_bw_same x y gy) (conj (exp_bw_same x y gy) (conj (log_bw_same x y gy) (conj (sigmoid_bw_same x y gy) (conj (sin_bw_same x y gy) (conj (softplus_bw_same x y gy) (conj (sqrt_bw_same x y gy) (conj (tan_bw_same x y gy) (tanh_bw_same x y gy)))))))))) (conj (conj (add_const_bw_same x y gy k) (conj (divide_const_r_bw_same x y gy k) (conj (divide_const_l_bw_same x y gy k) (conj (elu_bw_same x y gy k) (conj (multiply_const_bw_same x y gy k) (conj (pow_const_r_bw_same x y gy k) (conj (pow_const_l_bw_same x y gy k) (conj (prelu_bw_same x y gy k) (conj (subtract_const_r_bw_same x y gy k) (subtract_const_l_bw_same x y gy k)))))))))) (conj (conj (add_a_bw_same a b y gy) (conj (add_b_bw_same a b y gy) (conj (divide_a_bw_same a b y gy) (conj (divide_b_bw_same a b y gy) (conj (multiply_a_bw_same a b y gy) (conj (multiply_b_bw_same a b y gy) (conj (pow_a_bw_same a b y gy) (conj (pow_b_bw_same a b y gy) (conj (subtract_a_bw_same a b y gy) (subtract_b_bw_same a b y gy)))))))))) (pown_bw_same x y gy n)))).
+Qed.
+Print Assumptions C08_elem_backward_same_R.
+
+(* every row of the three tables holds: (Naive name, abstract statement) - the 66 headline equalities,
+   each closed over o, its hypothesis if any, and its arguments; (name, both abstract trees at Rops
+   are the concrete definitions); (name, concrete equality) *)
 Theorem C08_elem_all_kernels_same : Forall pstmt elem_table.
-Proof. exact elem_table_holds. Qed.
+Proof. exact (table_holds elem_table). Qed.
 Print Assumptions C08_elem_all_kernels_same.
 
-(* completeness against BOTH generated files and the directory listing: the rows are exactly the
-   definitions the Eigen translator produced and exactly the Naive formulas (minus the shared
-   logsumexp step), nothing was left untranslated on either side, each kernel uses the same update
+Theorem C08_elem_abstract_instantiates : Forall pstmt inst_table.
+Proof. exact (table_holds inst_table). Qed.
+Print Assumptions C08_elem_abstract_instantiates.
+
+Theorem C08_elem_all_kernels_same_R : Forall pstmt elem_table_R.
+Proof. exact (table_holds elem_table_R). Qed.
+Print Assumptions C08_elem_all_kernels_same_R.
+
+(* completeness against ALL FOUR generated files and the directory listing: the rows are exactly
+   the definitions the Eigen translator produced (concrete and abstract) and exactly the Naive
+   formulas (concrete and abstract, minus the shared logsumexp step), the three tables have the
+   same rows, nothing was left untranslated on either side, each kernel uses the same update
    operator (= for forward, += for backward) on both backends, and the files of
    primitiv/devices/eigen/ops are the reviewed 19 elementwise + 34 other files.  A kernel added
    to or removed from the directory, or from one backend only, breaks this. *)
@@ -154,7 +266,17 @@ Theorem C08_elem_table_complete : elem_complete_b = true /\ List.length covered 
 Proof. exact (conj elem_complete covered_count). Qed.
 Print Assumptions C08_elem_table_complete.
 
-(* non-vacuity: both formulas evaluated at rational points *)
+(* non-vacuity of the abstract statements: an interpretation that satisfies the two hypotheses,
+   under which pow is not exp (b * ln a), with both backends' values at a point *)
+Example C08_elem_nonvacuous_abstract :
+  op_exp odd_ops 0 = 1 /\ (forall p q r, op_div odd_ops (p * r) q = op_div odd_ops p q * r) /\
+  op_pow odd_ops 2 3 <> op_exp odd_ops (3 * op_ln odd_ops 2) /\
+  aefw_pow odd_ops 2 3 = -1 /\ afw_pow odd_ops 2 3 = -1 /\
+  aebw_divide_b odd_ops 3 2 5 4 = - 180 /\ abw_divide_b odd_ops 3 2 5 4 = - 180.
+Proof. exact odd_ops_ok. Qed.
+Print Assumptions C08_elem_nonvacuous_abstract.
+
+(* non-vacuity: both concrete formulas evaluated at rational points *)
 Example C08_elem_nonvacuous_values :
   (efw_prelu (-2) (1 / 4) = - (1 / 2) /\ fw_prelu (-2) (1 / 4) = - (1 / 2)) /\
   (ebw_divide_b 3 2 (3 / 2) 5 = - (15 / 4) /\ bw_divide_b 3 2 (3 / 2) 5 = - (15 / 4)) /\
